@@ -191,3 +191,14 @@ Definition fresh_lookup (s : store) (c : cid) (kw : kwargs) (fuel : nat) (k : ak
       end
     else resolve_f fuel (cl s) c k
   end.
+
+(** the field table [F] (in store [s]) derives from the table [F0] (in store
+    [s0]): same names in the same order, and every type is the original one or
+    a class customized from it (same root) *)
+Definition fields_derive (s0 : store) (F0 : list (fname * cid)) (s : store) (F : list (fname * cid)) : Prop :=
+  keys F = keys F0 /\
+  forall k t', tassoc k F = Some t' -> exists t, tassoc k F0 = Some t /\ root_of s t' = root_of s0 t.
+
+(** where append_field / insert_field put the new name among the existing ones *)
+Definition G_append (k : fname) (ks : list text) : list text := first_ins ks [k].
+Definition G_insert (i : Z) (k : fname) (ks : list text) : list text := py_insert i k (remove_key k ks).
